@@ -1231,23 +1231,11 @@ class VM:
             # anything else: an ordinary (own or inherited) property, see below
 
         if isinstance(obj, JSRegExp):
-            # RegExp methods and properties
-            if key_str in ("test", "exec"):
+            # RegExp methods (a property of the same name put on the regex wins)
+            if key_str in ("test", "exec") and not self._has_own_property(obj, key_str):
                 return self._make_regexp_method(obj, key_str)
-            # RegExp properties
-            if key_str in (
-                "source",
-                "flags",
-                "global",
-                "ignoreCase",
-                "multiline",
-                "dotAll",
-                "unicode",
-                "sticky",
-                "lastIndex",
-            ):
-                return obj.get(key_str)
-            return UNDEFINED
+            # source, flags, lastIndex ... and anything else: an ordinary
+            # (own or inherited, data or accessor) property, see below
 
         if isinstance(obj, JSFunction):
             own = getattr(obj, "_properties", None)
